@@ -309,3 +309,31 @@ Proof.
   split; [|split; [split; vm_compute; reflexivity|split; vm_compute; reflexivity]].
   repeat constructor; try (vm_compute; (reflexivity || discriminate || (left; reflexivity))).
 Qed.
+
+(* the whitespace-trimming rule of self-closing markers (Proofs/MarkupTrimProofs.v): a self-closing
+   marker standing at the start of the text or directly after a blank swallows exactly ONE blank that
+   directly follows it - the text is a ++ b, the attribute has length 0 at |a| - for every name, every
+   written property list (no trimwhitespace property), every plain a and b without colon.
+   [TR.lastr a 0] is the last character of a. *)
+Require YS.Proofs.MarkupTrimProofs.
+Module TR := YS.Proofs.MarkupTrimProofs.
+Theorem C13_self_closing_trims_one_blank : forall n ps a ws b,
+  P.name_ok n -> Forall P.prop_ok ps -> get_prop (P.pvalues ps) (STR "trimwhitespace") = None ->
+  str_eqb n (STR "character") = false ->
+  forallb plain_rune a = true -> forallb plain_rune b = true ->
+  forallb CP.no_colon a = true -> forallb CP.no_colon b = true ->
+  is_space ws = true ->
+  (Z.of_nat (length a) =? 0)%Z || is_space (TR.lastr a 0%N) = true ->
+  P.no_edge_space (a ++ b) ->
+  exists src, parse_markup (a ++ 91%N :: P.w_self n ps ++ ws :: b) =
+    Some (a ++ b, [{| aname := n; apos := Z.of_nat (length a); alen := 0; asrc := src;
+                      aprops := props_map (P.pvalues ps) |}]).
+Proof. exact TR.self_closing_trims_one_blank. Qed.
+Print Assumptions C13_self_closing_trims_one_blank.
+
+Example C13_self_closing_trim_example :
+  option_map (fun r => (fst r, map (fun a => (aname a, apos a, alen a)) (snd r)))
+    (parse_markup (STR "ab " ++ 91%N :: P.w_self (STR "pause") [(STR "ms", P.PVInt (STR "250"))] ++ STR "  cd")) =
+  Some (STR "ab  cd", [(STR "pause", 3, 0)]%Z)
+  /\ ((Z.of_nat (length (STR "ab ")) =? 0)%Z || is_space (TR.lastr (STR "ab ") 0%N) = true).
+Proof. split; vm_compute; reflexivity. Qed.
